@@ -421,7 +421,6 @@ def roundTrip (v : Yson) : Res Yson := parse v.isObj (marshal v)
 inductive Atom where
   | qstr (s : Str)         -- a string printed through strconv.Quote
   | key (s : Str)          -- an object key (printed raw)
-  | long (n : Int)         -- int64 payload of Long / Counter(Long)
   | dbl (d : Dbl)
   | date (t : Str)
   | typeMember             -- a nested object with a string member "type"
@@ -457,10 +456,10 @@ def atoms : Yson → List Atom
   | .double d => [.dbl d]
   | .str s => [.qstr s]
   | .int _ => []
-  | .long n => [.long n]
+  | .long _ => []
   | .bytes _ => []
   | .date t => [.date t]
-  | .counter (.long n) => [.long n]
+  | .counter (.long _) => []
   | .counter (.dedup _ _) => []
   | .counter (.int _) => []
   | .text ns => textAtoms ns
@@ -488,11 +487,10 @@ def goOnlyEscape (c : Nat) : Bool :=
 def keyNeedsEscape (c : Nat) : Bool := c == 34 || c == 92 || c < 32
 
 inductive Tag where
-  | longPrecision | typeMember | goQuote | keyUnescaped | doubleNonFinite | dateRange
+  | typeMember | goQuote | keyUnescaped | doubleNonFinite | dateRange
 deriving DecidableEq, Repr
 
 def Tag.name : Tag → String
-  | .longPrecision => "c18-long-precision"
   | .typeMember => "c18-type-member"
   | .goQuote => "c18-go-quote"
   | .keyUnescaped => "c18-key-unescaped"
@@ -500,11 +498,10 @@ def Tag.name : Tag → String
   | .dateRange => "c18-date-range"
 
 def Tag.all : List Tag :=
-  [.longPrecision, .typeMember, .goQuote, .keyUnescaped, .doubleNonFinite, .dateRange]
+  [.typeMember, .goQuote, .keyUnescaped, .doubleNonFinite, .dateRange]
 
 /-- does the atom exhibit the unsafe shape `t`? -/
 def Atom.hits : Atom → Tag → Bool
-  | .long n, .longPrecision => i64OfInt n != n
   | .typeMember, .typeMember => true
   | .qstr s, .goQuote => s.any goOnlyEscape
   | .key s, .keyUnescaped => s.any keyNeedsEscape
